@@ -175,9 +175,9 @@ def oracle(chk, d, kindtok, cls, dep):
                 parse_ok(pk[0])
             elif "execute" == k and " 1 " in kindtok[:14] and kindtok.split()[2] == "1":
                 # cursor-opening execute: count, coldefs, terminator with CURSOR_EXISTS
-                n = pk[0][0]
                 optmeta = bool(int(d.peer.caps) & int(C.CLIENT_OPTIONAL_RESULTSET_METADATA))
-                if pk[0] != bytes([n]) + (b"\x01" if optmeta else b""):
+                n = pk[0][1] if optmeta and len(pk[0]) > 1 else pk[0][0]
+                if pk[0] != (b"\x01" if optmeta else b"") + bytes([n]):
                     raise Bad("column count packet %r (metadata_follows byte %s)" % (pk[0][:8], "negotiated" if optmeta else "not negotiated"))
                 for p in pk[1:1 + n]:
                     parse_coldef(p)
